@@ -308,6 +308,12 @@ class BaseInterpreter(Generic[TContext, TEvent]):
         #: are stamped with the value current when they were scheduled, so an
         #: event from an activation that has since ended can be discarded.
         self._activation: Dict[str, int] = {}
+        #: States whose timers/services the transition in progress has
+        #: cancelled so far; a rollback re-arms exactly these.
+        self._cancelled_in_transition: List[StateNode] = []
+        #: States the transition in progress has entered so far; a rollback
+        #: cancels what they armed.
+        self._entered_in_transition: List[StateNode] = []
         #: Remembered configurations for history pseudo-states, keyed by the
         #: *parent* state id. Recorded on exit, replayed when a transition
         #: targets a `type: "history"` child of that parent.
@@ -1897,6 +1903,8 @@ class BaseInterpreter(Generic[TContext, TEvent]):
         #    itself healthy. Rolling back to the pre-transition configuration
         #    keeps the machine in a state that genuinely exists; the exception
         #    still propagates so the caller learns the transition failed.
+        self._cancelled_in_transition = []
+        self._entered_in_transition = []
         try:
             await self._exit_states(
                 sorted(
@@ -1942,8 +1950,17 @@ class BaseInterpreter(Generic[TContext, TEvent]):
                 transition.source.id,
                 exc_info=True,
             )
+            # 🧹 States the failed transition had already ENTERED armed their
+            #    timers and services on the way in; those must not outlive the
+            #    rollback that deactivates them again.
+            #    That includes a state that was exited AND re-entered by this
+            #    transition: it is part of the restored configuration, but the
+            #    tasks it armed on re-entry would double the re-arming below.
+            entered = list(self._entered_in_transition)
             self._active_state_nodes.clear()
             self._active_state_nodes.update(snapshot_before)
+            for node in entered:
+                await self._cancel_state_tasks(node)
 
             # ⏱️ Re-arm what exiting tore down. `_exit_states` cancels each
             #    exited state's `after` timers and invoked services, so a
@@ -1951,9 +1968,16 @@ class BaseInterpreter(Generic[TContext, TEvent]):
             #    a rolled-back state with `after: {250: "timeout"}` would never
             #    time out again. Re-scheduling makes the rollback a true
             #    restore rather than a cosmetic one.
-            for node in snapshot_before:
-                if node in states_to_exit:
+            #
+            #    Only states whose tasks were ACTUALLY cancelled are re-armed.
+            #    When the abort happens part-way through the exit list, the
+            #    states not yet reached still own their running timers;
+            #    scheduling those again left two live timers for one `after`
+            #    definition.
+            for node in self._cancelled_in_transition:
+                if node in snapshot_before:
                     self._schedule_state_tasks(node)
+            self._cancelled_in_transition = []
             raise
 
         # 6. Notify plugins and subscribers of the completed transition.
@@ -2014,6 +2038,7 @@ class BaseInterpreter(Generic[TContext, TEvent]):
         for state in states_to_enter:
             self._active_state_nodes.add(state)
             self._note_activation(state)
+            self._entered_in_transition.append(state)
             logger.debug("➡️  Entering state: '%s'.", state.id)
 
             # ⚙️ Run entry actions and schedule background tasks.
@@ -2288,6 +2313,7 @@ class BaseInterpreter(Generic[TContext, TEvent]):
             logger.debug("⬅️  Exiting state: '%s'.", state.id)
             # 🛑 Crucially, cancel tasks before running exit actions.
             await self._cancel_state_tasks(state)
+            self._cancelled_in_transition.append(state)
             # ⚙️ Then, run the synchronous exit actions.
             await self._execute_actions(state.exit, trigger_event)
             # 🗑️ Finally, remove from the active set.
